@@ -19,6 +19,7 @@ P2 = np.array([[2.0, 0.6], [0.6, 1.0]])
 P3 = np.array([[2.0, 0.6, -0.3], [0.6, 1.5, 0.2], [-0.3, 0.2, 1.0]])
 M2, M3 = np.array([0.5, -1.0]), np.array([0.5, -1.0, 0.3])
 YP, SIG2 = 3.0, 4.0
+YT = np.array([-3.0, 3.0])                 # two observations of the Student-t location model
 PBIG = np.linspace(60.0, 140.0, 40)        # diagonal information of the 40-dimensional block
 XC = np.c_[np.ones(6), np.linspace(-1, 1, 6)]
 YC = np.array([0.2, 0.1, 0.7, 0.9, 1.4, 1.3])
@@ -56,6 +57,8 @@ class Family:
             st = DCBlock(jnp.array([0.2, -0.4], jnp.float32))
             st.tau = jnp.asarray(TAU_DC, jnp.float32)
             self.keys, self.init = ["x"], st
+        elif name == "student_t":      # not log-concave: the information matrix is indefinite between the two observations
+            self.keys, self.init = ["x"], {"x": jnp.array([2.6], jnp.float32)}
         elif name == "gauss3":
             self.keys, self.init = ["x"], {"x": jnp.array([0.2, -0.4, 0.1], jnp.float32)}
         elif name in ("poisson", "poisson_userchol"):
@@ -96,6 +99,9 @@ class Family:
         if n == "gauss2_dc":
             r = s.x - jnp.asarray(M2, jnp.float32)
             return -0.5 * r @ jnp.asarray(P2, jnp.float32) @ r / s.tau
+        if n == "student_t":
+            r = jnp.asarray(YT, jnp.float32) - s["x"][0]
+            return -jnp.sum(jnp.log1p(r ** 2)) - 0.005 * s["x"][0] ** 2
         if n == "gauss3":
             r = s["x"] - jnp.asarray(M3, jnp.float32)
             return -0.5 * r @ jnp.asarray(P3, jnp.float32) @ r
@@ -155,6 +161,12 @@ class Family:
             return float(np.sum(2.0 * np.log(f) - np.exp(r) * f) - 0.5 * r ** 2), None, None
         if n == "gauss1":
             return -0.5 * 1.7 * (f[0] - 0.4) ** 2, np.array([-1.7 * (f[0] - 0.4)]), np.array([[1.7]])
+        if n == "student_t":      # Student-t with one degree of freedom, location mu = f[0]; F = - d^2 log p / d mu^2
+            r = YT - f[0]
+            lp = -np.sum(np.log1p(r ** 2)) - 0.005 * f[0] ** 2
+            g = np.sum(2.0 * r / (1.0 + r ** 2)) - 0.01 * f[0]
+            F = np.sum(2.0 * (1.0 - r ** 2) / (1.0 + r ** 2) ** 2) + 0.01
+            return float(lp), np.array([g]), np.array([[F]])
         if n == "gauss2":
             r = f - M2
             return -0.5 * r @ P2 @ r, -P2 @ r, P2
@@ -299,7 +311,7 @@ def run(kernel="iwls", family="gauss2", step=0.7, chains=2, seed=0, n_iter=40):
         traces.append({"hdr": {"kernel": kernel, "family": family, "step": step, "chain": c, "d": d,
                                "rtol": "3e-3", "atol": "2e-5", "rw_replay_matched": replay is not None,
                                # the density is finite everywhere and every proposal is a finite point
-                               "regular": family != "gamma_rw",
+                               "regular": family not in ("gamma_rw", "student_t"),
                                "scenario": {"kernel": kernel, "family": family, "step": step, "chains": chains,
                                             "seed": seed, "n_iter": n_iter}},
                        "ev": ev})
@@ -328,6 +340,8 @@ def jobs(quick=True):
     js.append(dict(kernel="iwls", family="gauss_big", step=0.7, seed=len(js)))
     # a dataclass model state with a member that is not a constructor argument
     js.append(dict(kernel="iwls", family="gauss2_dc", step=0.7, seed=len(js)))
+    # a target that is not log-concave: proposals land where the information is indefinite (no backward density)
+    js.append(dict(kernel="iwls", family="student_t", step=1.2, seed=len(js), chains=4, n_iter=80))
     js.append(dict(kernel="rw", family="gauss2_dc", step=0.7, seed=len(js)))
     # the block's density depends on a quantity another kernel of the sequence moves between the transitions
     for s in steps:
